@@ -215,6 +215,7 @@ def cmdSBuild (toks : List String) : Option String := do
 inductive AnyOp where
   | p (op : POp)
   | c (op : COp)
+  | writeAll (bs : Bytes)     -- `write_all` on a raw writer (`Sys.writeAll`)
 
 def parseAnyOp (s : String) : Option AnyOp :=
   match s.toList with
@@ -225,6 +226,7 @@ def parseAnyOp (s : String) : Option AnyOp :=
   | ['E'] => some (.c .isEndStream)
   | ['X'] => some (.c .drop)
   | 'W' :: rest => (unhexL rest).map fun b => .p (.write b)
+  | 'L' :: rest => (unhexL rest).map fun b => .writeAll b
   | 'V' :: rest =>   -- `write_vectored`: comma-separated hex slices
     ((String.ofList rest).splitOn ",").mapM unhex |>.map fun ss => .p (.write (firstNonEmpty ss))
   | 'P' :: rest => (String.ofList rest).toNat?.map fun w => .c (.poll w)
@@ -265,6 +267,9 @@ def runOps : Sys → List AnyOp → List String
   | s, .c op :: rest =>
     let (s', o) := s.cop op
     showCOut o :: runOps s' rest
+  | s, .writeAll bs :: rest =>
+    let (s', o, wakes) := s.writeAll bs
+    (showPOut o ++ showWakes wakes) :: runOps s' rest
 
 def cmdChunk (toks : List String) : Option String := do
   let cap ← (← kv toks "cap").toNat?
@@ -354,6 +359,7 @@ def parseNode (fuel : Nat) (toks : List String) : Option (FsNode × List String)
   | fuel + 1 =>
     match toks with
     | "f" :: id :: rest => do pure (.file (← id.toNat?), rest)
+    | "b" :: id :: rest => do pure (.blocked (← id.toNat?), rest)
     | "d" :: id :: n :: rest => do
       let id ← id.toNat?
       let n ← n.toNat?
@@ -390,7 +396,8 @@ def cmdDir (ctx : DirCtx) (toks : List String) : Option String := do
   | .ok (.invalid e) => pure (match e with
       | .nul => "INVALID:nul" | .absolute => "INVALID:absolute" | .dotdot => "INVALID:dotdot")
   | .ok (.osErr k) => pure (match k with
-      | .notFound => "ERR:notfound" | .notDir => "ERR:notdir" | .nameTooLong => "ERR:toolong")
+      | .notFound => "ERR:notfound" | .notDir => "ERR:notdir" | .nameTooLong => "ERR:toolong"
+      | .other => "ERR:other")
   | .ok (.node id gz enc vary) =>
     pure s!"OK id={id} gz={if gz then 1 else 0} ce={if enc then 1 else 0} vary={if vary then 1 else 0}"
 
